@@ -529,6 +529,7 @@ func doCheck(cfg propCfg) int {
 		cfg := cfg
 		cfg.autoBin = h.auto
 		spec := run.GenerateFor(*prop, h.res.Seed, *tier, h.auto)
+		spec.ColdStart = h.res.ColdStart
 		spec.Switches = h.res.Switches
 		if spec.Switches == nil {
 			spec.Switches = nonNilSwitches()
